@@ -1,6 +1,122 @@
-(** C03 — property theorems. *)
-From Coq Require Import List NArith Bool.
+(** C03 — property theorems (statements; proofs in C03/Proofs.v).
+
+    Full statement aimed at (DESIGN section 6, C03.1):
+
+      h2_to_h1_unambiguous :
+        accept_h2 hs es = Accept a ->
+        strict_h1 (serialize_h1 a ++ body) = Some [r'] with r' = a in method,
+        target, host, header list and body length.
+
+    What is proved below is its content, split per part of the message, and
+    marked _partial where a part is missing: the request line and every header
+    line sozu writes for an accepted list are read back by the strict reader as
+    exactly the fields sozu understood, because accepted names are non-empty
+    tokens, accepted values contain no CR / LF / NUL / control byte and accepted
+    pseudo-header values contain no SP / control byte.  Missing for the full
+    statement: the Cookie line rebuilt from crumbs (its bytes are a sub-multiset
+    of an accepted value, not proved here), and the composition with
+    [framing_of] / the body reader (exercised by the correspondence run, where
+    the extracted [strict_h1] re-reads every accepted request). *)
+From Coq Require Import List NArith Bool String.
 From SV Require Import C13.Model C03.Model C03.Proofs.
 Import ListNotations.
-Theorem placeholder : True.
-Proof. exact I. Qed.
+Open Scope N_scope.
+
+(** No byte of a CR/LF-free string can terminate the line it is written on. *)
+Theorem value_cannot_end_its_line : forall v rest,
+  forallb line_byte v = true -> take_line (v ++ crlf ++ rest) = Some (v, rest).
+Proof. exact take_line_app. Qed.
+
+(** Every header block pushed for an ACCEPTED HTTP/2 list is a well-formed
+    HTTP/1.1 field: non-empty token name, value without CR/LF/NUL/CTL — for all
+    header lists. *)
+Theorem h2_accepted_fields_well_formed : forall hs es a,
+  accept_h2 hs es = Accept a -> forallb field_ok (headers_of (a_items a)) = true.
+Proof. exact accepted_items_ok. Qed.
+
+(** … and the request line is made of a token, and a target / authority without
+    SP or control bytes (so [METHOD SP target SP version] splits in exactly three). *)
+Theorem h2_accepted_request_line_well_formed : forall hs es a,
+  accept_h2 hs es = Accept a ->
+  a_method a <> [] /\ forallb is_tchar (a_method a) = true /\
+  a_path a <> [] /\ forallb is_target_byte (a_path a) = true /\
+  forallb (fun b => (33 <=? b) && negb (b =? 127)) (a_authority a) = true.
+Proof.
+  intros hs es a H. destruct (accepted_line_ok hs es a H) as (Hm & Hmt & Hp & Ha).
+  repeat split.
+  - intros E. rewrite E in Hm. discriminate.
+  - exact Hmt.
+  - intros E. rewrite E in Hp. discriminate.
+  - apply pseudo_ok_no_sp. exact Hp.
+  - apply pseudo_ok_no_sp. exact Ha.
+Qed.
+
+(** The header block of an accepted list (no cookies) as written by the H1
+    serialiser is read back, field by field, as the list sozu understood. *)
+Theorem h2_to_h1_unambiguous_partial : forall hs es a rest,
+  accept_h2 hs es = Accept a -> a_jar a = [] ->
+  let fields := ser_h1 (a_items a) false [] in
+  fields = headers_of (a_items a) /\
+  read_headers (S (List.length fields)) (flat_map line_of fields ++ crlf ++ rest) =
+  Some (map (fun h => (fst h, trim_ows (snd h))) fields, rest).
+Proof.
+  intros hs es a rest H _. cbn zeta. rewrite ser_h1_no_cookies. split; [reflexivity|].
+  apply header_block_roundtrip. exact (accepted_items_ok hs es a H).
+Qed.
+
+(** H1 frontend: IF what kawa hands over is well-formed (token names, clean
+    values) THEN what is written is read back as the same field list.  That kawa
+    only hands over such lists or rejects is the differential tie (open findings). *)
+Theorem h1_forwarded_is_what_was_read_partial : forall fields rest,
+  forallb field_ok fields = true ->
+  read_headers (S (List.length fields)) (flat_map line_of fields ++ crlf ++ rest) =
+  Some (map (fun h => (fst h, trim_ows (snd h))) fields, rest).
+Proof. exact header_block_roundtrip. Qed.
+
+(** Content-Length vs DATA: a stream is never completed with a DATA total that
+    differs from its declared length, and the running total never exceeds it. *)
+Theorem cl_data_agree : forall n r evs t,
+  data_agree (Some n) r evs = Complete t -> t = n.
+Proof. intros n r evs t H. exact (data_agree_complete (Some n) r evs t n H eq_refl). Qed.
+
+Theorem cl_data_never_exceeds : forall n r evs, r <= n ->
+  match data_agree (Some n) r evs with Open t | Complete t => t <= n | Reset => True end.
+Proof. intros n r evs H. exact (data_agree_never_exceeds (Some n) r evs n eq_refl H). Qed.
+
+(* ------------------------------------------------------------------ *)
+(** Non-vacuity *)
+Definition ex_hs : list header :=
+  [ (B ":method", B "POST"); (B ":scheme", B "https"); (B ":path", B "/a?b=c"); (B ":authority", B "example.com");
+    (B "accept", B "*/*"); (B "x-a", B "v w"); (B "content-length", B "3") ].
+
+Example accept_nonvacuous :
+  match accept_h2 ex_hs false with
+  | Accept a => serialize_h1 a =
+      B "POST /a?b=c HTTP/1.1" ++ crlf ++ B "Host: example.com" ++ crlf ++ B "accept: */*" ++ crlf ++
+      B "x-a: v w" ++ crlf ++ B "content-length: 3" ++ crlf ++ crlf /\
+      option_map (@List.length request) (strict_h1 (serialize_h1 a ++ B "abc")) = Some 1%nat
+  | Reject => False
+  end.
+Proof. vm_compute. split; reflexivity. Qed.
+
+Example smuggling_rejected :
+  accept_h2 (ex_hs ++ [(B "x", [97; 13; 10; 69; 58; 32; 49])]) true = Reject /\
+  accept_h2 (ex_hs ++ [(B "transfer-encoding", B "chunked")]) false = Reject /\
+  accept_h2 (ex_hs ++ [(B "content-length", B "4")]) false = Reject /\
+  accept_h2 [ (B ":method", B "GET"); (B ":scheme", B "https"); (B ":path", B "/a b"); (B ":authority", B "x") ] true = Reject.
+Proof. vm_compute. repeat split; reflexivity. Qed.
+
+Example strict_reader_nonvacuous :
+  option_map (@List.length request)
+    (strict_h1 (B "GET / HTTP/1.1" ++ crlf ++ B "Host: x" ++ crlf ++ crlf ++
+                B "POST /2 HTTP/1.1" ++ crlf ++ B "Host: x" ++ crlf ++ B "Transfer-Encoding: chunked" ++ crlf ++ crlf ++
+                B "3" ++ crlf ++ B "abc" ++ crlf ++ B "0" ++ crlf ++ crlf)) = Some 2%nat /\
+  strict_h1 (B "GET / HTTP/1.1" ++ crlf ++ B "Host: x" ++ crlf ++ B "Content-Length: 3" ++ crlf ++
+             B "Transfer-Encoding: chunked" ++ crlf ++ crlf ++ B "0" ++ crlf ++ crlf) = None.
+Proof. vm_compute. split; reflexivity. Qed.
+
+Example data_agree_nonvacuous :
+  data_agree (Some 5) 0 [Data 2 false; Data 3 true] = Complete 5 /\
+  data_agree (Some 5) 0 [Data 2 false; Data 2 true] = Reset /\
+  data_agree (Some 5) 0 [Data 6 false] = Reset /\ data_agree (Some 5) 0 [Data 4 false; Trailers] = Reset.
+Proof. vm_compute. repeat split; reflexivity. Qed.
